@@ -125,7 +125,11 @@ Drain(s) ==
         /\ reserved' = reserved - (d2 - drained)
         /\ items' = [i \in {j \in DOMAIN items : j >= d2} |-> items[i]]
         /\ fetch' = [x \in (DOMAIN fetch \ {s}) |-> fetch[x]]
-        /\ Log([a |-> "Drain", seq |-> s, out |-> out'])
+        \* race: while this goroutine is at the end of its drain (buffer still held), the replayer lets the fetch of
+        \* sequence number `race` return. buffer.Add and Drain exclude each other (one mutex), so that result can only be
+        \* added - and drained by its own goroutine - afterwards: a scheduling hint in the history, not state.
+        /\ \E race \in {None} \cup {t \in DOMAIN fetch : t # s /\ fetch[t].st = "fetching"} :
+              Log([a |-> "Drain", seq |-> s, out |-> out', race |-> race])
   /\ UNCHANGED <<nadd, batch, token, armed, fires, nfired, nexpl, pc, ev, lock, nextSeq>>
 
 Done == nadd = NItems /\ (\A g \in G : pc[g] = "idle") /\ DOMAIN fetch = {}
